@@ -44,6 +44,12 @@ def run_in_child(fn, arg, timeout: float = 60.0):
         code = 0
         try:
             os.close(r)
+            # the worker's stdout is the JSON channel to the driver: nothing a run prints
+            # (Hypothesis reports, debug output of the code under test) may reach it
+            dn = os.open(os.devnull, os.O_WRONLY)
+            os.dup2(dn, 1)
+            if not os.environ.get("VERIF_CHILD_STDERR"):
+                os.dup2(dn, 2)
             faulthandler.enable()
             faulthandler.dump_traceback_later(max(1.0, timeout - 1.0), exit=False)
             try:
